@@ -9,6 +9,7 @@
      Write n      only for an authenticated peer
      Close        station closed the connection: only after the deadline, after the peer closed, or when relaying
      Return       the handler returned
+     LegacyReg    a legacy (v0/v1) registration was ingested just before the connection arrived
      Swept        the expiry sweeper removed the matched registration right after the matching verdict (before MarkActive)
      Final        what reached the covert / came back / registration state
    Silent steps: running out of transports (read -> drain) and the found -> relay step. *)
@@ -26,7 +27,7 @@ TraceInit == /\ c = NoCase
              /\ rcvd = 0 /\ sent = 0 /\ readn = 0 /\ written = 0
              /\ dlSet = FALSE /\ expired = FALSE /\ peerClosed = FALSE
              /\ matched = None /\ consumed = 0 /\ used = FALSE /\ returned = FALSE
-             /\ swept = FALSE /\ regLock = "free"
+             /\ swept = FALSE /\ regLock = "free" /\ seeded = FALSE /\ dlKnown = FALSE
              /\ obs = [a |-> "Init"]
              /\ l = 1
 TraceStart == /\ l <= Len(TraceLog) /\ TraceLog[l].a = "Start"
@@ -35,7 +36,7 @@ TraceStart == /\ l <= Len(TraceLog) /\ TraceLog[l].a = "Start"
               /\ rcvd' = 0 /\ sent' = 0 /\ readn' = 0 /\ written' = 0
               /\ dlSet' = FALSE /\ expired' = FALSE /\ peerClosed' = FALSE
               /\ matched' = None /\ consumed' = 0 /\ used' = FALSE /\ returned' = FALSE
-              /\ swept' = FALSE /\ regLock' = "free"
+              /\ swept' = FALSE /\ regLock' = "free" /\ seeded' = FALSE /\ dlKnown' = FALSE
               /\ obs' = [a |-> "Init"]
               /\ l' = l + 1
 
@@ -58,13 +59,14 @@ TraceStep ==
                                  \/ (HDrain /\ obs'.a = "Read" /\ obs'.n = e.n)
                                  \/ (HRelayRead /\ obs'.n = e.n)
                                  \/ (phase \in {"offer", "found"} /\ Authenticated /\ avail >= e.n /\ readn' = readn + e.n
-                                     /\ UNCHANGED <<swept, regLock, c, phase, alive, todo, rcvd, sent, written, dlSet, expired, peerClosed, matched, consumed, used, returned, obs>>)
+                                     /\ UNCHANGED <<seeded, dlKnown, swept, regLock, c, phase, alive, todo, rcvd, sent, written, dlSet, expired, peerClosed, matched, consumed, used, returned, obs>>)
        [] e.a = "Verdict"     -> HOffer(e.t) /\ obs'.r = e.r /\ obs'.n = e.n /\ (e.r = "match" => e.left = rcvd - c.H)
        [] e.a = "Write"       -> (HWrite \/ (Authenticated /\ written >= MaxW /\ Unch))
        [] e.a = "Close"       -> (phase \in {"relay", "returned"} \/ expired \/ peerClosed) /\ Unch
        [] e.a = "Return"      -> ~e.hung /\ (\/ (HRead /\ obs'.a = "Return") \/ (HDrain /\ obs'.a = "Return")
                                             \/ HSleep \/ HRelayReturn)
        [] e.a = "Swept"       -> SweepRemoves
+       [] e.a = "LegacyReg"   -> IF seeded THEN Unch ELSE LegacySelect
        [] e.a = "Final"       -> returned /\ FinalOK(e) /\ Unch
        [] OTHER               -> FALSE
 Silent == /\ UNCHANGED l
